@@ -230,10 +230,18 @@ def rule_5(ctx):
     c04.rule_4(ctx)
 
 
+def rule_6(ctx):
+    """extract() follows formula.terms: they must name the formula's own precedents (own text, own sheet) - shared with C03.1."""
+    from . import corelemma
+    corelemma.rule_formula_per_sheet(ctx)
+    ctx.floor(1, 'formula terms')
+
+
 RULES = [
     ('C13.1', 'dependency closure of extract', rule_1),
     ('C13.2', 'range terms are not looked up as cells; ranges populated', rule_2),
     ('C13.3', 'no aliasing with the original, original unchanged', rule_3),
     ('C13.4', 'focus handling and compilation', rule_4),
     ('C13.5', 'input changes reach the cells map in both models (shared with C04.4)', rule_5),
+    ('C13.6', 'the terms extract() follows are those of the formula itself (shared with C03.1)', rule_6),
 ]
